@@ -413,6 +413,19 @@ fn run_op(c: &mut Ctx, op: &Value) -> Value {
                     };
                     r.map(|s| (s, Value::Null))
                 }
+                "set_transitions_move" => {
+                    let vt = c.vt(&op["vt"]);
+                    let mut m: im::HashMap<VehicleTypeIdx, Transition> = im::HashMap::new();
+                    for t in nw.vehicle_types().iter() {
+                        let cur = s.next_day_transition_of(t).clone();
+                        if t == vt {
+                            m.insert(t, cur.move_vehicle(c.veh(&op["vehicle"]), op["cycle"].as_u64().unwrap() as usize, s.get_tours(), &nw));
+                        } else {
+                            m.insert(t, cur);
+                        }
+                    }
+                    Ok((s.set_next_day_transitions(m), Value::Null))
+                }
                 "improve_depots" => Ok((s.improve_depots(None), Value::Null)),
                 "reassign_end_depots_greedily" => s.reassign_end_depots_greedily().map(|s| (s, Value::Null)),
                 "reassign_end_depots_consistent_with_transitions" => Ok((s.reassign_end_depots_consistent_with_transitions(), Value::Null)),
